@@ -113,3 +113,23 @@ Lemma cache_tie_refuted :
             /\ vnth 3 (c17_model c) = VL [Verr 1]
             /\ c17_holds c (c17_model c) = false.
 Proof. exists tie_witness. vm_compute. repeat split. Qed.
+
+(* ------------------------------------------------------------------ the cache with staging pins:
+   more capacity can cost more fills.  At capacity 0 the line of binding 0 is brought in by its
+   staging write and pinned; with room for one line it is brought in by the read, stays
+   replaceable, and is given up when binding 1 pins its staging line *)
+Definition pin_witness : c17_case :=
+  {| k_tensors := [{| t_ranks := [0%nat]; t_shape := [3] |}; {| t_ranks := [0%nat]; t_shape := [3] |}];
+     k_binds := [{| k_t := 1; k_r := 0; k_type := 0; k_foot := 32; k_evict := None;
+                    k_read := Some [([1], [3], 2); ([5], [5], 2)];
+                    k_write := Some [([1], [3], 3)] |};
+                 {| k_t := 1; k_r := 0; k_type := 1; k_foot := 16; k_evict := None;
+                    k_read := None;
+                    k_write := Some [([2], [4], 3); ([5], [5], 0)] |}];
+     k_line := 64; k_bcap := 64; k_caps := [0; 64]; k_fin := None |}.
+
+Lemma cache_pins_not_monotone :
+  exists c, c17_wf c = true /\ c17_region c = 2
+            /\ map total_reads (vl (vnth 3 (c17_model c))) = [64 - 7; 128 - 7]
+            /\ c17_holds c (c17_model c) = false.
+Proof. exists pin_witness. vm_compute. repeat split. Qed.
